@@ -538,17 +538,19 @@ func (st *tunnelServerStream) readMsgLocked() (data []byte, ok bool, err error) 
 
 		in, ok := st.receiver.dequeue()
 		if !ok {
+			// The receiver is cancelled (which discards queued frames) only
+			// after the stream context has ended, so check that first: a
+			// read that may have lost data must not end in a clean EOF.
+			if err := st.ctx.Err(); err != nil {
+				return nil, true, err
+			}
 			var err error
 			if halfClosedErr := st.halfClosed.Load(); halfClosedErr != nil {
 				err = halfClosedErr.error
 			}
 			if err == nil {
-				// The receiver was cancelled (stream context ended) before a
-				// half-close was recorded. Never report that as a successful
-				// read of an empty message.
-				if err = st.ctx.Err(); err == nil {
-					err = context.Canceled
-				}
+				// Never report a successful read of an empty message.
+				err = context.Canceled
 			}
 			return nil, true, err
 		}
